@@ -386,7 +386,7 @@ impl<'a> G<'a> {
     // an expression that belongs to a statement head (%if condition, iterative %do bounds): a ';' would end it
     fn stmt_eval_expr(&mut self) { let s = self.in_stmt_expr; self.in_stmt_expr = true; self.eval_expr(false, false); self.in_stmt_expr = s; }
     fn eval_op(&mut self) {
-        let (s, t) = [("+", "PLUS"), ("-", "MINUS"), ("*", "STAR"), ("/", "FSLASH"), ("**", "STAR2"), ("<", "LT"), (">", "GT"), ("<=", "LE"), (">=", "GE"), ("=", "ASSIGN"), ("^=", "NE"), ("~=", "NE"), ("\u{ac}=", "NE"), ("ne", "KwNE"), ("EQ", "KwEQ"), ("lt", "KwLT"), ("Gt", "KwGT"), ("le", "KwLE"), ("ge", "KwGE"), ("and", "KwAND"), ("OR", "KwOR"), ("in", "KwIN"), ("#", "HASH"), ("&", "AMP"), ("|", "PIPE")][self.u.below(25)];
+        let (s, t) = [("+", "PLUS"), ("-", "MINUS"), ("*", "STAR"), ("/", "FSLASH"), ("**", "STAR2"), ("<", "LT"), (">", "GT"), ("<=", "LE"), (">=", "GE"), ("=", "ASSIGN"), ("^=", "NE"), ("~=", "NE"), ("\u{ac}=", "NE"), ("ne", "KwNE"), ("EQ", "KwEQ"), ("lt", "KwLT"), ("Gt", "KwGT"), ("le", "KwLE"), ("ge", "KwGE"), ("and", "KwAND"), ("OR", "KwOR"), ("in", "KwIN"), ("#", "HASH"), ("&", "AMP"), ("|", "PIPE"), ("%=", "ASSIGN"), ("%^=", "NE"), ("%~=", "NE")][self.u.below(28)];
         let wordy = s.chars().all(|c| c.is_ascii_alphabetic());
         // a mnemonic is recognized after whitespace or any character that cannot continue a name (')', '.', a quote, ...)
         // (not directly after a closing quote: 'q'ne would read the n as a name-literal suffix - the lexer's documented suffix rule)
@@ -408,7 +408,7 @@ impl<'a> G<'a> {
         match k {
             0 | 1 => { let s = self.pick(&["0", "1", "42", "100", "0ffx", "007", "10", "00", "1Ax", "0FFX", "999999999"]); self.mark(s, MK::IntOperand); self.tp(); }
             2 => self.mvar(true),
-            3 => { let w = self.pick(&["abc", "x1", "txt", "é", "a b c", "1 2 3", "x.y", "a_1 b", "rate", "size", "SCALE", "value", "base", "type"]); self.p(w); }
+            3 => { let w = self.pick(&["abc", "x1", "txt", "é", "a b c", "1 2 3", "x.y", "a_1 b", "rate", "size", "SCALE", "value", "base", "type", "and1", "or_x", "nex", "eq1", "inx", "NOTE", "gex", "lte"]); self.p(w); }
             4 => { self.feat("eval-parens"); self.mark("(", MK::Op("LPAREN")); self.ows(); self.eval_expr(float, false); self.gap_after_expr(); self.mark(")", MK::Op("RPAREN")); }
             5 => { self.user_call(2); self.p(" "); }
             6 => { self.d_inc(); self.builtin_call(2); self.depth -= 1; }
